@@ -938,7 +938,7 @@ func c06CancelledUnstarted(ctx *core.Ctx, server string, dotu bool) core.Result 
 	defer h.done()
 	warmKinds := []string{"Tread", "Tattach", "Tauth", "Twalk", "Tstat", "Topen"}
 	for wi, warm := range warmKinds {
-		for _, canceller := range []string{"tflush", "tversion", "tflush-twice"} {
+		for _, canceller := range []string{"tflush", "tversion", "tflush-twice", "tflush-before-later-members", "tflush-between-members"} {
 			for _, victims := range []string{"Tread", "Tstat", "Tattach"} {
 				reps := 1
 				if server == "ufs" {
@@ -1030,6 +1030,8 @@ func c06CancelledUnstarted(ctx *core.Ctx, server string, dotu bool) core.Result 
 					switch canceller {
 					case "tflush":
 						cancel = []*wire.Msg{{Type: wire.Tflush, Tag: 600, Oldtag: T}}
+					case "tflush-before-later-members", "tflush-between-members":
+						cancel = []*wire.Msg{{Type: wire.Tflush, Tag: 600, Oldtag: T}}
 					case "tflush-twice":
 						cancel = []*wire.Msg{{Type: wire.Tflush, Tag: 600, Oldtag: T}, {Type: wire.Tflush, Tag: 601, Oldtag: T}}
 					case "tversion":
@@ -1041,7 +1043,17 @@ func c06CancelledUnstarted(ctx *core.Ctx, server string, dotu bool) core.Result 
 						case <-hold.Entered:
 						case <-time.After(2 * time.Second):
 						}
-						_ = c.Send(append(group[1:], cancel...)...)
+						switch canceller {
+						case "tflush-before-later-members":
+							// the flush finds only the executing member; the others arrive under its tag afterwards
+							_ = c.Send(cancel...)
+							time.Sleep(2 * time.Millisecond)
+							_ = c.Send(group[1:]...)
+						case "tflush-between-members":
+							_ = c.Send(group[1], cancel[0], group[2], group[3])
+						default:
+							_ = c.Send(append(group[1:], cancel...)...)
+						}
 						if canceller == "tversion" {
 							c.WaitTag(wire.NOTAG, 2*time.Second)
 						} else {
@@ -1049,7 +1061,14 @@ func c06CancelledUnstarted(ctx *core.Ctx, server string, dotu bool) core.Result 
 						}
 						close(hold.Gate)
 					} else {
-						_ = c.Send(append(group, cancel...)...)
+						switch canceller {
+						case "tflush-before-later-members":
+							_ = c.Send(append(append([]*wire.Msg{group[0]}, cancel...), group[1:]...)...)
+						case "tflush-between-members":
+							_ = c.Send(group[0], group[1], cancel[0], group[2], group[3])
+						default:
+							_ = c.Send(append(group, cancel...)...)
+						}
 					}
 					for _, m := range cancel {
 						if hold != nil && m.Type == wire.Tversion {
